@@ -13,9 +13,16 @@
     runfile <c|d> <fmt> <sfx|none> <c> <f> <k> <name> <kind> <sym> <srcmode> <nlink> <destkind> <gfail> <ofail> <nowarn>
                                             -> "A=<action> D=<dest hex|-> M=<mode|-> R=<0|1> X=<exit status>"
     status <nowarn> <w|e>...                -> decimal exit status of a run reporting these events
+    attrs <d|c> <keep> <nosparse> <nosync> <srcmode> <srcuid> <srcgid> <srcatime ns> <srcmtime ns> <procuid> <destgid>
+          <ownerfail> <groupfail> <chunk>...     (chunk = d<n>: an io_write() of n non-zero bytes, z<n>: of n zero bytes)
+                                            -> "M=<mode> U=<uid> G=<gid> A=<atime ns> T=<mtime ns> S=<size> R=<src removed>
+                                                W=<warnings> OK=<0|1> E=<codes of the system calls, see Attrs.Ev.code>"
+       Model/Attrs.lean: open(O_CREAT|O_EXCL) + the io_write() calls + io_close(success), every system call succeeding
+       except the forced fchown failures; cfg as args.c / io_open_dest_real derive it from the options.
 -/
 import XzVerif.Model.Proto
 import XzVerif.Model.Suffix
+import XzVerif.Model.Attrs
 import XzVerif.Gen.C19
 open XzVerif XzVerif.Proto XzVerif.Suffix
 
@@ -72,8 +79,32 @@ def actionStr (a : Action) : String :=
   | .toStdout => "stdout"
   | .done _ _ => "done"
 
+/-- "d123" / "z8192" -> the bytes of one io_write() call -/
+def chunkOf (t : String) : Option (List UInt8) :=
+  match t.toList with
+  | 'd' :: rest => (String.ofList rest).toNat?.map fun n => List.replicate n 1
+  | 'z' :: rest => (String.ofList rest).toNat?.map fun n => List.replicate n 0
+  | _ => none
+
+def attrsOp (md keep nosparse nosync : String) (nums : List Nat) (ofail gfail : String) (chunks : List (List UInt8)) : String :=
+  match nums with
+  | [smode, suid, sgid, sat, smt, puid, dgid] =>
+    let r : Attrs.Run := Attrs.cliRun (md == "d") (b01 keep) (b01 nosparse) (b01 nosync) smode suid sgid sat smt puid dgid
+                           (b01 ofail) (b01 gfail) chunks
+    let o := Attrs.run r
+    let d := o.st.dest
+    let codes := ",".intercalate (o.st.trace.map fun e => toString (e.code.headD 0))
+    let nw := (o.st.msgs.filter (· == Status.warning)).length
+    s!"M={d.mode} U={d.uid} G={d.gid} A={d.atime} T={d.mtime} S={d.content.length} R={if o.srcRemoved then 1 else 0} " ++
+    s!"W={nw} OK={if o.success then 1 else 0} E={codes}"
+  | _ => "bad-op"
+
 def step (_ : Unit) (ws : List String) : Unit × String :=
   match ws with
+  | "attrs" :: md :: keep :: nosparse :: nosync :: smode :: suid :: sgid :: sat :: smt :: puid :: dgid :: ofl :: gfl :: cks =>
+    match [smode, suid, sgid, sat, smt, puid, dgid].mapM String.toNat?, cks.mapM chunkOf with
+    | some nums, some chunks => ((), attrsOp md keep nosparse nosync nums ofl gfl chunks)
+    | _, _ => ((), "bad-op")
   | ["name", md, f, sx, nm] =>
     match fmtOf f, sfxOf sx, bytesOfHex nm with
     | some fmt, some (some custom), some name =>
